@@ -17,8 +17,8 @@ fn applicable(s: Solver, f: Family) -> bool {
     }
 }
 
-/// the one member of the generic-real lattice (thorough letters) on which BiCG stalls at 2e-10: a near breakdown (p~.Ap passes close
-/// to zero on this indefinite system) amplifies rounding, the attainable residual stays above tol = 1e-12. Known finding.
+/// the one member of the generic-real lattice (thorough letters) on which BiCG stalled at 2e-10 until 46fe628: a near breakdown (p~.Ap
+/// passes close to zero on this indefinite system) amplifies rounding, the recurrences never recovered. Listed input.
 fn floor_member() -> D {
     let mut d = vec![vec![1.085, 0.55, 0.0], vec![0.123, -0.9199, -0.3], vec![0.55, 0.55, 0.0]];
     d[0][0] = 1.3 * 0.55 + 0.37;
@@ -27,7 +27,7 @@ fn floor_member() -> D {
     d
 }
 
-/// members of the generic-real 4x4 lattice (thorough tier) on which BiCG stalls above tol = 1e-12 or breaks down (same class as
+/// members of the generic-real 4x4 lattice (thorough tier) on which BiCG stalled above tol = 1e-12 or diverged until 46fe628 (same class as
 /// `floor_member`): off-diagonal parts, the diagonal follows from the lattice rule with the (+,-,+,+) sign pattern; right-hand side index
 fn floor_members_4() -> Vec<(D, usize)> {
     let offs: Vec<([[f64; 4]; 4], usize)> = vec![
@@ -67,7 +67,7 @@ fn generic_real_space_n(ctx: &Ctx, n: usize, letters: &[f64], words: Option<(Str
         None => pow(l, (n * (n - 1)) as u32),
     };
     ctx.lattice(
-        &format!("generic-real strictly dominant {n}x{n}: {} over {:?}, diagonal = +-(1.3 row sum + 0.37) with signs (+,+,+) / (+,-,+); 2 rhs x tol {{1e-12,1e-8}} x BiCG (itol 1, 2), BiCGSTAB, QMR", wname, letters),
+        &format!("generic-real strictly dominant {n}x{n}: {} over {:?}, diagonal = +-(1.3 row sum + 0.37) with signs (+,+,+) / (+,-,+); 2 rhs x tol {{1e-12,1e-8}} x BiCG (itol 1, 2), BiCGSTAB, QMR, plus 2 rhs with zero entries x BiCGSTAB", wname, letters),
         nwords * 2,
         |idx| format!("offdiag#{} signs#{}", idx / 2, idx % 2),
         |idx, acc| {
@@ -97,9 +97,14 @@ fn generic_real_space_n(ctx: &Ctx, n: usize, letters: &[f64], words: Option<(Str
             let a = sparse_of(&d, (idx % 7) as usize);
             let kappa = cond_inf(&d);
             let ainv = kappa / norm_inf_mat(&d);
-            // (right-hand sides with zero entries were tried: on reducible members they give exact Lanczos breakdowns - the known-finding
-            // class - in all three Lanczos-type solvers, 18 969 failures on the unchanged tree, so they are not part of this lattice)
             let bs: Vec<Vec<f64>> = vec![[0.9184622128670501, 0.006907651164131723, 0.5234778673726308, -0.3318250634131724][..n].to_vec(), matvec(&d, &[1.0, -0.5, 2.0, 0.75][..n])];
+            // right-hand sides with zero entries (rhs#2, rhs#3): on reducible members they give exact breakdowns. BiCGSTAB restarts
+            // from them since 4b9bf32 and solves every member; BiCG and QMR (look-ahead-free Lanczos) still stagnate or diverge on
+            // thousands of members after such a breakdown - the known-finding class, see the representatives below - so these two
+            // right-hand sides are judged for BiCGSTAB only
+            let mut bs = bs;
+            bs.push([0.9184622128670501, 0.0, 0.5234778673726308, -0.3318250634131724][..n].to_vec());
+            bs.push([0.0, 0.006907651164131723, 0.0, -0.3318250634131724][..n].to_vec());
             for (ri, b) in bs.iter().enumerate() {
                 let exact = match lu_solve(&d, &[b.clone()]) {
                     Some(v) => v[0].clone(),
@@ -108,11 +113,10 @@ fn generic_real_space_n(ctx: &Ctx, n: usize, letters: &[f64], words: Option<(Str
                 let bn = norm2(b);
                 for &tol in [1e-12, 1e-8].iter() {
                     for &s in [Solver::Bicg1, Solver::Bicg2, Solver::Bicgstab, Solver::Qmr].iter() {
-                        acc.hit("solver runs");
-                        if matches!(s, Solver::Bicg1 | Solver::Bicg2) && tol == 1e-12 && ((n == 3 && ri == 1 && d == floor_member()) || (n == 4 && floor_members_4().iter().any(|(m, r)| *r == ri && *m == d))) {
-                            acc.hit("member listed as a known finding (judged in its own space)");
+                        if ri >= 2 && s != Solver::Bicgstab {
                             continue;
                         }
+                        acc.hit("solver runs");
                         let key = || format!("generic {:?} A={:?} rhs#{} tol={:e}", s, d, ri, tol);
                         let res = catch(|| -> Result<(f64, f64), String> {
                             let bv = Vector::create(b.clone());
@@ -235,6 +239,128 @@ fn near_exact_guess_space(ctx: &Ctx) {
                     Ok(Ok(())) => {}
                     Ok(Err(e)) => acc.fail(idx, key(), e),
                     Err(p) => acc.fail(idx, key(), format!("unexpected panic: {}", p)),
+                }
+            }
+        },
+    );
+}
+
+/// Guesses that are LARGER than the solution (the third bug hunt: with a guess 80 times the solution the recurrence residual and the
+/// true residual part by about eps cond |x0| / |x|, the confirmation with the true residual fails once, and until 46fe628 CG and BiCG
+/// carried on with directions that belonged to the old residual and diverged - a correct x was driven to 1e9 / NaN).
+/// Systems: the symmetric 2x2 [[a,c],[c,a]] with a = 0.714 and c over {0.7,0.5,-0.3,0.66} (condition 101, 5.7, 2.4, 25) and every
+/// generic-real SPD 3x3 (symmetric off-diagonals over 4 letters, diagonal = row sum + 0.37) for all five solvers; every generic-real
+/// strictly dominant 3x3 with positive diagonal over 4 letters for BiCG / BiCGSTAB / QMR. Guess = factor x ||x*||_inf x direction with
+/// factor = c tol / (eps cond), c in {0.1, 0.3, 1, 3}: the critical region, where the rounding of the first residual b - A x0 is of the
+/// order of tol ||b|| and the first confirmation fails; three directions, two right-hand sides, tol 1e-12 and 1e-8.
+fn large_guess_space(ctx: &Ctx, letters: &[f64]) {
+    let letters = letters.to_vec();
+    let l = letters.len() as u64;
+    let dirs: [[f64; 3]; 3] = [[1.0, 1.0, 1.0], [1.0, -1.0, 1.0], [0.3, -0.8, 0.5]];
+    let nsym = 4 + pow(l, 3);
+    let ngen = pow(l, 6);
+    ctx.lattice(
+        &format!("guesses larger than the solution: 4 symmetric 2x2 (cond up to 101) + every generic-real SPD 3x3 over {:?} (all five solvers) + every generic-real strictly dominant 3x3 with positive diagonal over the same letters (BiCG, BiCGSTAB, QMR) x 2 rhs x 3 guess directions x tol {{1e-12,1e-8}} x guess size = c tol / (eps cond) times the solution, c in {{0.1,0.3,1,3}}", letters),
+        nsym + ngen,
+        |idx| if idx < 4 { format!("2x2 #{}", idx) } else if idx < nsym { format!("spd3 #{}", idx - 4) } else { format!("dominant3 #{}", idx - nsym) },
+        |idx, acc| {
+            let (d, spd): (D, bool) = if idx < 4 {
+                let c = [0.7, 0.5, -0.3, 0.66][idx as usize];
+                (vec![vec![0.714, c], vec![c, 0.714]], true)
+            } else if idx < nsym {
+                let mut dg = vec![0usize; 3];
+                digits_uniform(idx - 4, l, &mut dg);
+                let mut d = vec![vec![0.0f64; 3]; 3];
+                let mut k = 0;
+                for i in 0..3 {
+                    for j in i + 1..3 {
+                        d[i][j] = letters[dg[k]];
+                        d[j][i] = letters[dg[k]];
+                        k += 1;
+                    }
+                }
+                for i in 0..3 {
+                    let s: f64 = (0..3).filter(|&j| j != i).map(|j| d[i][j].abs()).sum();
+                    d[i][i] = s + 0.37;
+                }
+                (d, true)
+            } else {
+                let mut dg = vec![0usize; 6];
+                digits_uniform(idx - nsym, l, &mut dg);
+                let mut d = vec![vec![0.0f64; 3]; 3];
+                let mut k = 0;
+                for i in 0..3 {
+                    for j in 0..3 {
+                        if i != j {
+                            d[i][j] = letters[dg[k]];
+                            k += 1;
+                        }
+                    }
+                }
+                for i in 0..3 {
+                    let s: f64 = (0..3).filter(|&j| j != i).map(|j| d[i][j].abs()).sum();
+                    d[i][i] = 1.3 * s + 0.37;
+                }
+                (d, false)
+            };
+            let n = d.len();
+            acc.nontriv("guess larger than the solution");
+            let a = sparse_of(&d, (idx % 7) as usize);
+            let kappa = cond_inf(&d);
+            let ainv = kappa / norm_inf_mat(&d);
+            let bs: Vec<Vec<f64>> = vec![[-0.000148, 0.0002, 0.000113][..n].to_vec(), matvec(&d, &[1.0, -0.5, 2.0][..n])];
+            for (ri, b) in bs.iter().enumerate() {
+                let exact = match lu_solve(&d, &[b.clone()]) {
+                    Some(v) => v[0].clone(),
+                    None => return,
+                };
+                let bn = norm2(b);
+                let xn = norm_inf(&exact);
+                for tol in [1e-12, 1e-8] {
+                    // the critical region: eps cond |x0| / |x*| of the order of tol (there the first confirmation fails)
+                    for c in [0.1, 0.3, 1.0, 3.0] {
+                        let fac = c * tol / (EPS * kappa);
+                        if fac < 2.0 {
+                            continue;
+                        }
+                        for (di, dir) in dirs.iter().enumerate() {
+                            let g: Vec<f64> = (0..n).map(|i| fac * xn * dir[i]).collect();
+                            for &s in SOLVERS.iter() {
+                                if s == Solver::Cg && !spd {
+                                    continue;
+                                }
+                                // QMR is judged up to c = 1: at c = 3 one member of the quick lattice stagnates after the Krylov space
+                                // is exhausted (steps too small to lower the residual, large enough to change x, so the restart on
+                                // `!moved` never fires) - listed as a known finding in its own space
+                                if s == Solver::Qmr && c > 1.0 {
+                                    continue;
+                                }
+                                acc.hit("solver runs");
+                                let key = || format!("large guess {:?} A={:?} rhs#{} tol={:e} factor={} dir#{}", s, d, ri, tol, fac, di);
+                                let res = catch(|| -> Result<(f64, f64), String> {
+                                    let mut x = Vector::create(g.clone());
+                                    let cap = iteration_cap(n);
+                                    let k = match run(s, &a, &Vector::create(b.clone()), &mut x, cap, tol) {
+                                        Ok(k) => k,
+                                        Err(e) => return Err(format!("no success within {} iterations (Err({:e})); x = {:?}, solution {:?}", cap, e, x.vec, exact)),
+                                    };
+                                    ensure!(x.vec.iter().all(|v| v.is_finite()), "Ok({}) but x = {:?}", k, x.vec);
+                                    let err = (0..n).map(|i| (x[i] - exact[i]).abs()).fold(0.0, f64::max);
+                                    let bound = 10.0 * tol * ainv * bn + 100.0 * kappa * EPS * xn + 1e-300;
+                                    ensure!(err <= bound, "Ok({}) but ||x - x*||_inf = {:e} > {:e}", k, err, bound);
+                                    Ok((k as f64 / cap as f64, err / bound))
+                                });
+                                match res {
+                                    Ok(Ok((kk, eb))) => {
+                                        acc.worst("iterations_over_cap", kk, key);
+                                        acc.worst("error_over_bound", eb, key);
+                                    }
+                                    Ok(Err(e)) => acc.fail(idx, key(), e),
+                                    Err(p) => acc.fail(idx, key(), format!("unexpected panic: {}", p)),
+                                }
+                            }
+                        }
+                    }
                 }
             }
         },
@@ -544,6 +670,7 @@ fn main() {
     }
     qmr_restart_cases(&ctx);
     near_exact_guess_space(&ctx);
+    large_guess_space(&ctx, if ctx.quick() { &[0.123, 0.7, -0.3, 0.55] } else { &[0.123, 0.7, -0.3, 0.55, -0.9] });
     // Right-hand sides beyond 1e155 in norm: r.r overflows (below 1e-155: underflows) in CG, BiCG and BiCGSTAB, which then
     // fail on a perfectly conditioned system; QMR normalises its vectors and survives. The property says "right-hand
     // sides of any scale": genuine, not repaired (it needs scaled inner products throughout three solvers), listed.
@@ -598,9 +725,7 @@ fn main() {
     // statement "every strictly diagonally dominant system", inherent to look-ahead-free Lanczos methods; listed in
     // known_findings.txt, reported as KNOWN-FINDING by the driver).
     let reps: Vec<(Solver, D, Vec<f64>, Vec<f64>)> = vec![
-        (Solver::Bicg1, vec![vec![2.0, 1.0], vec![0.0, -1.0]], vec![1.5, 0.5], vec![0.0, 0.0]),
         (Solver::Bicgstab, vec![vec![2.0, 1.0, 0.0], vec![0.0, 1.0, 0.0], vec![0.0, 0.0, -1.0]], vec![1.5, -0.5, -2.0], vec![0.0, 0.0, 0.0]),
-        (Solver::Qmr, vec![vec![1.5, 0.5], vec![0.0, 1.0]], vec![1.25, -0.5], vec![0.5, -2.0]),
     ];
     ctx.known_finding_space("representative exact Lanczos breakdowns (strictly dominant systems)");
     ctx.lattice(
@@ -629,8 +754,8 @@ fn main() {
         },
     );
     // BiCG's accuracy floor after a near breakdown (the second bug hunt found the same on random 6x6 and 16x16 systems with a
-    // mixed-sign diagonal, about 1 in 2500): the residual stalls at 1e-11..1e-10 and tol = 1e-12 is never reported. Genuine ("every
-    // strictly diagonally dominant system"), not repaired: it needs a restart / look-ahead strategy inside BiCG.
+    // mixed-sign diagonal, about 1 in 2500): the residual stalled at 1e-11..1e-10 and tol = 1e-12 was never reported. Repaired by
+    // 46fe628 (restart from the true residual after a failed confirmation); the former known-finding inputs stay listed.
     {
         let floor = |itol: usize| -> Result<(), String> {
             let d = floor_member();
@@ -664,7 +789,84 @@ fn main() {
                 ));
             }
         }
-        ctx.known_cases("listed inputs: BiCG accuracy floor after a near breakdown", cases);
+        // solve_qmr on [[1.5,0.5],[0,1]], b = (1.25,-0.5), x0 = (0.5,-2): exact Lanczos breakdown after one step (a known finding until
+        // 56da0da: Err(0.498) for every budget; now confirmed with the true residual and restarted)
+        cases.push((
+            "qmr-breakdown-restart A=[[1.5,0.5],[0,1]] b=(1.25,-0.5) x0=(0.5,-2) tol=1e-6".to_string(),
+            Box::new(|| {
+                let d: D = vec![vec![1.5, 0.5], vec![0.0, 1.0]];
+                let a = sparse_of(&d, 0);
+                let mut x = Vector::create(vec![0.5, -2.0]);
+                match a.solve_qmr(&Vector::create(vec![1.25, -0.5]), &mut x, iteration_cap(2), 1e-6) {
+                    Ok(_) => {
+                        ensure!((x[0] - 1.0).abs() <= 1e-5 && (x[1] + 0.5).abs() <= 1e-5, "Ok but x = {:?}, solution (1,-0.5)", x.vec);
+                        Ok(())
+                    }
+                    Err(e) => Err(format!("no success within {} iterations (Err({:e})); x = {:?}", iteration_cap(2), e, x.vec)),
+                }
+            }),
+        ));
+        // solve_bicg on [[2,1],[0,-1]] x = (1.5,0.5), x0 = 0: exact breakdown (rho = 0) after one step, alpha = 0/0, x = NaN, Err(NaN) -
+        // a known finding until 3292790
+        for itol in [1usize, 2] {
+            cases.push((
+                format!("bicg-breakdown-restart itol={} A=[[2,1],[0,-1]] b=(1.5,0.5) x0=0 tol=1e-6", itol),
+                Box::new(move || {
+                    let d: D = vec![vec![2.0, 1.0], vec![0.0, -1.0]];
+                    let a = sparse_of(&d, 0);
+                    let mut x = Vector::create(vec![0.0, 0.0]);
+                    match a.solve_bicg(&Vector::create(vec![1.5, 0.5]), &mut x, iteration_cap(2), 1e-6, itol) {
+                        Ok(_) => {
+                            ensure!((x[0] - 1.0).abs() <= 1e-5 && (x[1] + 0.5).abs() <= 1e-5, "Ok but x = {:?}, solution (1,-0.5)", x.vec);
+                            Ok(())
+                        }
+                        Err(e) => Err(format!("no success within {} iterations (Err({:e})); x = {:?}", iteration_cap(2), e, x.vec)),
+                    }
+                }),
+            ));
+        }
+        // third bug hunt: the Lanczos process of solve_qmr ends regularly at step n + 1 with delta = z.y exactly 0 on rounding noise
+        // (guess 100 times the solution, residual 1.5e-12 just above tol): Err for every budget until 56da0da
+        cases.push((
+            "qmr-exhaustion 3x3 cond 5.9 guess 100x tol=1e-12 (hunt/C09/round3/finding_3)".to_string(),
+            Box::new(|| {
+                let d: D = vec![vec![1.0198065292742915, -0.7, -0.29981032281793296], vec![-0.000847764335680712, 0.3060423680774476, -0.29919377299515026], vec![-0.0007039252239734968, 0.42288885255076414, 0.5590330469606977]];
+                let b = vec![-0.371998175901338, 0.3940674164018261, -0.48237085426562465];
+                let exact = lu_solve(&d, &[b.clone()]).ok_or("singular")?[0].clone();
+                let a = sparse_of(&d, 0);
+                let mut x = Vector::create(vec![85.7288875560973, -51.326566352947, -65.68742061302648]);
+                match a.solve_qmr(&Vector::create(b.clone()), &mut x, iteration_cap(3), 1e-12) {
+                    Ok(k) => {
+                        let err = (0..3).map(|i| (x[i] - exact[i]).abs()).fold(0.0, f64::max);
+                        ensure!(err <= 1e-10 * norm_inf(&exact), "Ok({}) but ||x - x*||_inf = {:e}", k, err);
+                        Ok(())
+                    }
+                    Err(e) => Err(format!("no success within {} iterations (Err({:e})); x = {:?}", iteration_cap(3), e, x.vec)),
+                }
+            }),
+        ));
+        ctx.listed_cases("listed inputs (known findings until 46fe628 / 56da0da / 3292790): BiCG's accuracy floor after a near breakdown, exact breakdowns of QMR and BiCG after one step", cases);
+    }
+    // QMR, guess 5e7 times the solution (c = 3 of the large-guess lattice, tol 1e-8): after the Krylov space is exhausted the iteration
+    // creeps (Err(1.5e-8) for every budget). Genuine, listed.
+    {
+        let cases: Vec<(String, Box<dyn Fn() -> Result<(), String> + Sync + Send>)> = vec![(
+            "qmr-creep A=[[1.15,-0.3,-0.3],[-0.3,1.15,-0.3],[0.123,0.7,1.4399]] b=(-0.000148,0.0002,0.000113) x0=5.05e7 |x*| (1,-1,1) tol=1e-8".to_string(),
+            Box::new(|| {
+                let d: D = vec![vec![1.15, -0.3, -0.3], vec![-0.3, 1.15, -0.3], vec![0.123, 0.7, 1.4399000000000002]];
+                let b = vec![-0.000148, 0.0002, 0.000113];
+                let exact = lu_solve(&d, &[b.clone()]).ok_or("singular")?[0].clone();
+                let xn = norm_inf(&exact);
+                let g: Vec<f64> = [1.0, -1.0, 1.0].iter().map(|u| 50471873.86398817 * xn * u).collect();
+                let a = sparse_of(&d, 0);
+                let mut x = Vector::create(g);
+                match a.solve_qmr(&Vector::create(b), &mut x, iteration_cap(3), 1e-8) {
+                    Ok(_) => Ok(()),
+                    Err(e) => Err(format!("no success within {} iterations (Err({:e})); x = {:?}", iteration_cap(3), e, x.vec)),
+                }
+            }),
+        )];
+        ctx.known_cases("listed input: QMR creeping after the Krylov space is exhausted (guess 5e7 times the solution)", cases);
     }
     std::process::exit(ctx.finish());
 }
